@@ -229,3 +229,132 @@ Example C13_generated_code_rejected :
   validate2 (model2 G2gp (mk_default [1; -1] 1 false)) [1; 2] [1; 2] [0; 3] ex_gp = false /\
   validate2c (model2 G2gp ex_A2) [1; 2] [1; 2] [0; 3] ex_gp_sign = false.
 Proof. exact ex_rejected. Qed.
+
+(* ---- translation validation of the generated code that DIVIDES: alg.inv, alg.div (Model/SlpDiv.v, Theory/SlpDiv.v;
+   tools/genvalidate.py program_div_of parses the generated text).  The coefficient structure: EVERY commutative ring with an
+   arbitrary function dv that divides by non-zero elements and an exact zero test isz.  slpf_eval = python's own evaluation of
+   the text (a / b raises ZeroDivisionError when b is zero); inv_model / div_model = codegen_inv / codegen_div of
+   Model/Inverse.v on numbers (C07, C08).  validate_inv / validate_div = true is ONE computation on indeterminates (fractions of
+   kingdon polynomials, compared with the closed-form numerator / denominator by cross-multiplication); it implies d <= 5. ---- *)
+From KV Require Import Model.Inverse Model.SlpDiv Theory.SlpDiv.
+
+Theorem C13_generated_inverse_all_inputs : forall (R : Type) (R0 R1 : R) (Radd Rmul Rsub : R -> R -> R) (Ropp : R -> R),
+  ring_theory R0 R1 Radd Rmul Rsub Ropp (@eq R) ->
+  forall (dv : R -> R -> R) (isz : R -> bool),
+  (forall a b, b <> R0 -> Rmul (dv a b) b = a) -> (forall r, isz r = true <-> r = R0) ->
+  forall A : alg, wf_alg A = true ->
+  forall (ky kout : list Z) (p : dprog), validate_inv A ky kout p = true ->
+  let O := mkOps R Radd Rsub Rmul Ropp R0 R1 in let zi := zinj R R0 R1 Radd Rmul Ropp in
+  forall xs, length xs = length ky ->
+  (slpf_eval O zi dv isz p [xs] = Err EZeroDiv \/ exists vs, slpf_eval O zi dv isz p [xs] = Ok vs) /\
+  (forall vs r, slpf_eval O zi dv isz p [xs] = Ok vs -> inv_model O dv isz idF A (combine ky xs) = Ok r ->
+     length vs = length kout /\ forall K, coeff O K (combine kout vs) = coeff O K r) /\
+  NoDup kout /\ exists num den, inv_symbolic A ky 0 = Ok (num, den) /\ kout = keys (filter_nz pisz num).
+Proof. exact slp_validated_inv. Qed.
+Print Assumptions C13_generated_inverse_all_inputs.
+
+Theorem C13_generated_division_all_inputs : forall (R : Type) (R0 R1 : R) (Radd Rmul Rsub : R -> R -> R) (Ropp : R -> R),
+  ring_theory R0 R1 Radd Rmul Rsub Ropp (@eq R) ->
+  forall (dv : R -> R -> R) (isz : R -> bool),
+  (forall a b, b <> R0 -> Rmul (dv a b) b = a) -> (forall r, isz r = true <-> r = R0) ->
+  forall A : alg, wf_alg A = true ->
+  forall (kx ky kout : list Z) (p : dprog), validate_div A kx ky kout p = true ->
+  let O := mkOps R Radd Rsub Rmul Ropp R0 R1 in let zi := zinj R R0 R1 Radd Rmul Ropp in
+  forall xs ys, length xs = length kx -> length ys = length ky ->
+  (slpf_eval O zi dv isz p [xs; ys] = Err EZeroDiv \/ exists vs, slpf_eval O zi dv isz p [xs; ys] = Ok vs) /\
+  (forall vs r, slpf_eval O zi dv isz p [xs; ys] = Ok vs -> div_model O dv isz idF A (combine kx xs) (combine ky ys) = Ok r ->
+     length vs = length kout /\ forall K, coeff O K (combine kout vs) = coeff O K r) /\
+  NoDup kout /\ exists num den, div_symbolic A kx ky = Ok (num, den) /\ kout = keys (filter_nz pisz num).
+Proof. exact slp_validated_div. Qed.
+Print Assumptions C13_generated_division_all_inputs.
+
+(* "returns" is implied by: no denominator of the symbolic fractions vanishes at the operand; other lengths: ValueError *)
+Theorem C13_generated_inverse_returns : forall (R : Type) (R0 R1 : R) (Radd Rmul Rsub : R -> R -> R) (Ropp : R -> R),
+  ring_theory R0 R1 Radd Rmul Rsub Ropp (@eq R) ->
+  forall (dv : R -> R -> R) (isz : R -> bool),
+  (forall a b, b <> R0 -> Rmul (dv a b) b = a) -> (forall r, isz r = true <-> r = R0) ->
+  forall A : alg, wf_alg A = true ->
+  forall (ky kout : list Z) (p : dprog), validate_inv A ky kout p = true ->
+  let O := mkOps R Radd Rsub Rmul Ropp R0 R1 in let zi := zinj R R0 R1 Radd Rmul Ropp in
+  forall xs,
+  (length xs = length ky ->
+   Forall (fun q => peval R R0 R1 Radd Rmul Ropp (fun i => nth i (xs ++ []) R0) q <> R0)
+          (slpq_dens PolyOps poly_eqb P_of_Z p [indets 0 (length ky)]) ->
+   exists vs, slpf_eval O zi dv isz p [xs] = Ok vs) /\
+  (length xs <> length ky -> slpf_eval O zi dv isz p [xs] = Err EValue).
+Proof.
+  exact (fun R R0 R1 Radd Rmul Rsub Ropp Rth dv isz Hdv Hisz A HA ky kout p Hv xs =>
+           conj (slp_validated_inv_returns R R0 R1 Radd Rmul Rsub Ropp Rth dv isz Hdv Hisz A HA ky kout p Hv xs)
+                (slp_validated_inv_wrong_length R R0 R1 Radd Rmul Rsub Ropp dv isz A ky kout p Hv xs)).
+Qed.
+Print Assumptions C13_generated_inverse_returns.
+
+Theorem C13_generated_division_returns : forall (R : Type) (R0 R1 : R) (Radd Rmul Rsub : R -> R -> R) (Ropp : R -> R),
+  ring_theory R0 R1 Radd Rmul Rsub Ropp (@eq R) ->
+  forall (dv : R -> R -> R) (isz : R -> bool),
+  (forall a b, b <> R0 -> Rmul (dv a b) b = a) -> (forall r, isz r = true <-> r = R0) ->
+  forall A : alg, wf_alg A = true ->
+  forall (kx ky kout : list Z) (p : dprog), validate_div A kx ky kout p = true ->
+  let O := mkOps R Radd Rsub Rmul Ropp R0 R1 in let zi := zinj R R0 R1 Radd Rmul Ropp in
+  forall xs ys,
+  (length xs = length kx -> length ys = length ky ->
+   Forall (fun q => peval R R0 R1 Radd Rmul Ropp (fun i => nth i (xs ++ ys) R0) q <> R0)
+          (slpq_dens PolyOps poly_eqb P_of_Z p [indets 0 (length kx); indets (length kx) (length ky)]) ->
+   exists vs, slpf_eval O zi dv isz p [xs; ys] = Ok vs) /\
+  (length xs <> length kx \/ length ys <> length ky -> slpf_eval O zi dv isz p [xs; ys] = Err EValue).
+Proof.
+  exact (fun R R0 R1 Radd Rmul Rsub Ropp Rth dv isz Hdv Hisz A HA kx ky kout p Hv xs ys =>
+           conj (slp_validated_div_returns R R0 R1 Radd Rmul Rsub Ropp Rth dv isz Hdv Hisz A HA kx ky kout p Hv xs ys)
+                (slp_validated_div_wrong_length R R0 R1 Radd Rmul Rsub Ropp dv isz A kx ky kout p Hv xs ys)).
+Qed.
+Print Assumptions C13_generated_division_returns.
+
+(* fraction evaluation commutes with every operation-preserving map of the coefficients that preserves the test on
+   denominators - exceptions and the denominators met on the way included *)
+Theorem C13_slpq_hom : forall (R S : Type) (OR : ops R) (OS : ops S) (h : R -> S) (injR : Z -> R) (injS : Z -> S)
+  (deqR : R -> R -> bool) (deqS : S -> S -> bool),
+  ops_hom OR OS h -> (forall z, h (injR z) = injS z) -> (forall a b, deqS (h a) (h b) = deqR a b) ->
+  forall p args,
+  slpq_eval OS deqS injS p (map (map h) args) = map_res (map (fmap h)) (slpq_eval OR deqR injR p args) /\
+  slpq_dens OS deqS injS p (map (map h) args) = map h (slpq_dens OR deqR injR p args).
+Proof.
+  exact (fun R S OR OS h injR injS deqR deqS Hh Hi Hd p args =>
+           conj (slpq_eval_hom OR OS h injR injS deqR deqS Hh Hi Hd p args) (slpq_dens_hom OR OS h injR injS deqR deqS Hh Hi Hd p args)).
+Qed.
+Print Assumptions C13_slpq_hom.
+
+(* the fractions describe python's evaluation: over R itself, if the fraction evaluation returns and no denominator met on
+   the way is zero, python's evaluation returns dv num den componentwise (deq: any test that implies equality) *)
+Theorem C13_slpq_sound : forall (R : Type) (rO rI : R) (radd rmul rsub : R -> R -> R) (ropp : R -> R),
+  ring_theory rO rI radd rmul rsub ropp (@eq R) ->
+  forall (dv : R -> R -> R) (isz : R -> bool),
+  (forall a b, b <> rO -> rmul (dv a b) b = a) -> (forall r, isz r = true <-> r = rO) ->
+  forall deq : R -> R -> bool, (forall a b, deq a b = true -> a = b) ->
+  forall (inj : Z -> R) p args frs,
+  let O := mkOps R radd rsub rmul ropp rO rI in
+  slpq_eval O deq inj p args = Ok frs ->
+  Forall (fun d => d <> rO) (slpq_dens O deq inj p args) ->
+  exists vs, slpf_eval O inj dv isz p args = Ok vs /\ Forall2 (fun v f => v = dv (fst f) (snd f)) vs frs.
+Proof. exact slpq_sound_id. Qed.
+Print Assumptions C13_slpq_sound.
+
+(* non-vacuity: the real generated text of the inverse of a vector in Algebra(3) (with cse), of a rotor in Algebra(2), of
+   vector / rotor in Algebra(3) validate - and so does the hand-simplified a_i / (a1^2 + a2^2 + a3^2); a flipped sign, a
+   denominator that lost a term, other keys, another storage order, another signature, d = 6 do not *)
+Example C13_generated_division_validates :
+  validate_inv ex_A3 [1; 2; 4] [1; 2; 4] ex_inv3 = true /\
+  validate_inv ex_A3 [1; 2; 4] [1; 2; 4] ex_inv3_short = true /\
+  validate_inv ex_A2 [0; 3] [0; 3] ex_rotor = true /\
+  validate_div ex_A3 [1; 2; 4] [0; 3] [1; 2; 4; 7] ex_div3 = true.
+Proof. exact exd_validates. Qed.
+Example C13_generated_division_rejected :
+  validate_inv ex_A3 [1; 2; 4] [1; 2; 4] ex_inv3_sign = false /\
+  validate_inv ex_A3 [1; 2; 4] [1; 2; 4] ex_inv3_den_wrong = false /\
+  validate_inv ex_A2 [0; 3] [0; 3] ex_rotor_sign = false /\
+  validate_inv ex_A2 [0; 3] [0; 3] ex_rotor_den = false /\
+  validate_inv ex_A3 [1; 2; 4] [2; 1; 4] ex_inv3 = false /\
+  validate_inv ex_A3 [2; 1; 4] [1; 2; 4] ex_inv3 = false /\
+  validate_inv (mk_default [1; -1; 1] 1 false) [1; 2; 4] [1; 2; 4] ex_inv3 = false /\
+  validate_inv (mk_default [1; 1; 1; 1; 1; 1] 1 false) [1; 2; 4] [1; 2; 4] ex_inv3 = false /\
+  validate_div ex_A3 [1; 2; 4] [0; 3] [1; 2; 4; 7] (mkDProg (d_unpack ex_div3) (d_lets ex_div3) (rev (d_ret ex_div3))) = false.
+Proof. exact exd_rejected. Qed.
